@@ -62,11 +62,26 @@ static void dump(var t) {
   } catch (e) { ierr = exn_name(e); }
   same = (!runaway && !ierr && cnt == m);
   for (size_t i = 0; same && i < m; i++) if (!gok[i] || it[i] != g[i]) same = 0;
+  /* backward iteration (iter_last / iter_prev): must be the exact reverse of the positive gets */
+  static int64_t bk[MAXV]; size_t bcnt = 0; int brun = 0; const char* berr = NULL;
+  try {
+    var x = iter_last(t);
+    while (x isnt Terminal) {
+      if (bcnt >= m + 4 || bcnt >= MAXV) { brun = 1; break; }
+      bk[bcnt++] = c_int(x);
+      x = iter_prev(t, x);
+    }
+  } catch (e) { berr = exn_name(e); }
+  int bsame = (!brun && !berr && bcnt == m);
+  for (size_t i = 0; bsame && i < m; i++) if (!gok[m - 1 - i] || bk[i] != g[m - 1 - i]) bsame = 0;
   P(";");
-  if (same) P("=");
+  if (same && bsame) P("=");
   else if (runaway) P("RUNAWAY");
   else if (ierr) P("!%s", ierr);
-  else for (size_t i = 0; i < cnt; i++) { if (i) P(","); P("%" PRId64, it[i]); }
+  else if (!same) for (size_t i = 0; i < cnt; i++) { if (i) P(","); P("%" PRId64, it[i]); }
+  else if (brun) P("BACKWARD-RUNAWAY");
+  else if (berr) P("BACKWARD!%s", berr);
+  else { P("BACKWARD:"); for (size_t i = 0; i < bcnt; i++) { if (i) P(","); P("%" PRId64, bk[i]); } }
   P(";");
   for (int p = 0; p < NPROBE; p++) {
     try { P("%d", mem(t, $I(PROBES[p])) ? 1 : 0); } catch (e) { P("!"); }
